@@ -1,9 +1,9 @@
 package main
 
 import (
-	"go/types"
 	"fmt"
 	"go/token"
+	"go/types"
 	"sort"
 	"strings"
 
@@ -63,6 +63,38 @@ func c15(r *Run) {
 	sort.Strings(names)
 	for _, n := range names {
 		r.ob("C15.R1:owner-closes:"+n, "each owner still closes its descriptor", w.Fn(n), nil, found[n] > 0, fmt.Sprintf("%d close sites", found[n]), false)
+	}
+
+	// the connection's descriptor: netFD.Close is reached only from the connection's finalizer (last close callback) and
+	// from the dial paths that still own the descriptor; nobody closes it through the Conn interface
+	{
+		nfClose := w.MustFn("(*netFD).Close")
+		closers := map[string]string{
+			"(*connection).initFinalizer$1": "the finalizer: the last close callback, after the server untracked the number",
+			"socket":                        "a dial whose connect failed, before any connection exists",
+			"(*sysDialer).dialTCP":          "a self-connected / spurious dial that is retried, before any connection exists",
+		}
+		n := map[string]int{}
+		for _, f := range w.Funcs {
+			for _, ins := range findIns(f, func(i ssa.Instruction) bool {
+				if isCallOrDefer(i, nfClose) {
+					return true
+				}
+				cc := callCommon(i)
+				return cc != nil && cc.IsInvoke() && cc.Method.Name() == "Close" && namedTypeName(cc.Value.Type()) == "Conn"
+			}) {
+				name := w.FnName(f)
+				if f.Parent() != nil && w.FnName(f.Parent()) == "(*connection).initFinalizer" {
+					name = "(*connection).initFinalizer$1"
+				}
+				n[name]++
+				_, ok := closers[name]
+				r.ob(fmt.Sprintf("C15.R1:connection-descriptor-closed-by:%s#%d", name, n[name]), "a connection's descriptor is closed through its netFD only by the finalizer (which runs after every other close callback, so the server has untracked the number before it can be reused) and by dial paths that have not built a connection yet; the accept path, the callback runner and everyone else go through connection.Close (frozen census)", f, ins, ok, closers[name], false)
+			}
+		}
+		for _, name := range []string{"(*connection).initFinalizer$1", "(*sysDialer).dialTCP", "socket"} {
+			r.ob("C15.R1:connection-descriptor-closer-present:"+name, "each of these still closes its descriptor", nil, nil, n[name] > 0, fmt.Sprintf("%d sites", n[name]), false)
+		}
 	}
 
 	// ---- R2 borrowed number -----------------------------------------------------------------------
